@@ -249,7 +249,7 @@ def d3(rep, f, c):
         n += 1
         rep.ob('C19-D3', name, not miss, 'state field(s) %r written by the decode bodies are not consulted: a mid-sequence decoder could claim to be neutral' % miss,
                sp_str(b.raw['span']), {'written': sorted(w), 'read': sorted(rd)}, c)
-    rep.floor('C19-D3', 'in_neutral_state implementations', n, 7, c)
+    rep.floor('C19-D3', 'in_neutral_state implementations', n, 7, c, exact=True)
 
 
 def d4(rep, f, c):
